@@ -55,6 +55,11 @@ pub fn gen_op_fault(r: &mut Rng, op: &mut Op) {
                 UserOutcome::Err(0x27),
                 UserOutcome::Err(0x2F),
                 UserOutcome::Err(0x2D),
+                UserOutcome::Err(0x23), // user action pending
+                UserOutcome::Err(0x30), // not allowed
+                UserOutcome::Err(0x3A), // up required
+                UserOutcome::Err(0x36), // pin required
+                UserOutcome::Err(0x7F),
             ])];
         }
         2 => op.cancel_after = Some(r.below(14) as u32),
@@ -104,7 +109,22 @@ pub fn gen_history(r: &mut Rng, o: &HistOpts) -> Ceremony {
                 }
                 w -= *x;
             }
+            // now and then the account of an earlier registration is registered again
+            let earlier: Vec<(u8, Vec<u8>)> = actor
+                .ops
+                .iter()
+                .filter_map(|o: &Op| match &o.kind {
+                    OpKind::Register(s) => Some((s.rp, s.user_id.clone())),
+                    _ => None,
+                })
+                .collect();
             let kind = match which {
+                0 if !earlier.is_empty() && r.chance(1, 5) => {
+                    let (erp, uid) = r.pick(&earlier).clone();
+                    let mut s = gen_reg(r, erp);
+                    s.user_id = uid;
+                    OpKind::Register(s)
+                }
                 0 => OpKind::Register(gen_reg(r, rp)),
                 1 => OpKind::Authenticate(gen_auth(r, rp)),
                 2 => OpKind::MakeCredential(gen_mc(r, eff)),
